@@ -73,7 +73,7 @@ class Ctx:
         return self.ob(rule, construct, v, detail, loc, derived, required)
 
     def equiv(self, rule, construct, derived, required, loc="", detail="", norm=None, interp=None):
-        d, r = derived, required
+        d, r = T.strip_never(derived), required
         if norm is not None:
             d = norm(T.to_term(d))
             r = norm(T.to_term(r))
